@@ -65,6 +65,10 @@ pub enum PatchIndexError {
         key_size: u8,
     },
 
+    /// Key size of the extra header does not fit the 16-byte key field
+    #[error("extra header key size {0} exceeds 16 bytes")]
+    InvalidHeaderKeySize(u8),
+
     /// I/O error during parsing
     #[error("I/O error: {0}")]
     Io(#[from] std::io::Error),
